@@ -1,4 +1,5 @@
 import Qryn.Base.Bytes
+import Qryn.Base.Base64
 /-! # Trace ingestion and read-back (C06). Core-only.
 
 Model of
@@ -120,7 +121,8 @@ def dateSecOf (ts : Int) : Int := ts.tdiv 1000000000
 
 /-! ## OTLP documents -/
 
-/-- `common.v1.AnyValue` (oneof): `unset` = no member set. The double is carried by its IEEE bits. -/
+/-- `common.v1.AnyValue` (oneof): `unset` = no member set; `nilp` = there is no `AnyValue` at all (a `KeyValue` decoded
+    without its `value` field has a nil pointer). The double is carried by its IEEE bits. -/
 inductive AnyValue where
   | str (s : Str)
   | bool (b : Bool)
@@ -130,6 +132,7 @@ inductive AnyValue where
   | kvl (kvs : List (Str × AnyValue))
   | bytes (b : Bytes)
   | unset
+  | nilp
   deriving Repr, Inhabited
 
 abbrev KV := Str × AnyValue
@@ -165,6 +168,7 @@ def flattenVal (key : Str) : AnyValue → List (Str × Str)
   | .kvl kvs => flattenKvs (key ++ [46]) kvs
   | .bytes _ => []
   | .unset => []
+  | .nilp => []
 def flattenArr (pfx : Str) (i : Nat) : List AnyValue → List (Str × Str)
   | [] => []
   | v :: vs => flattenVal (pfx ++ natDigits i) v ++ flattenArr pfx (i + 1) vs
@@ -244,6 +248,9 @@ structure OSpan where
   attrs : List KV
   /-- `none` = no status message; `some (code, message)` -/
   status : Option (Nat × Str)
+  /-- `Events`: time and name (all the JSON view of a trace shows of them; the rest of an event, links, trace state,
+      flags, dropped counts and unknown fields ride along inside the protobuf payload, which is third-party) -/
+  events : List (Nat × Str) := []
   deriving Repr, Inhabited
 
 structure ResourceSpans where
@@ -267,16 +274,12 @@ inductive ZTime where
 /-- a value that must be a JSON string: `none` = some other JSON value -/
 abbrev JStr := Option Str
 
-inductive EpName where
-  | absent
-  | str (s : Str)
-  | bad
-  deriving Repr, DecidableEq
-
-/-- an endpoint object (keys unique): `serviceName`, string-valued `ipv4`/`ipv6` (absent or non-string = `none`),
-    integer `port` (0 = absent, zero or not a number) -/
+/-- an endpoint object as the two sides look at it: every `serviceName` member in document order (`none` = its
+    value is not a JSON string; the writer walks them all, the reader looks the first one up), the first `ipv4` /
+    `ipv6` member when it is a string (absent or non-string = `none`), `GetInt64` of the first `port` member
+    (0 = absent, not a number, not an int64 literal, or zero). Other members are skipped by both sides. -/
 structure Endpoint where
-  serviceName : EpName
+  svcs : List (Option Str)
   ipv4 : Option Str
   ipv6 : Option Str
   port : Int
@@ -296,6 +299,9 @@ inductive ZField where
   /-- `none` = not an object; a tag value `none` = not a string (skipped by both sides) -/
   | tags (t : Option (List (Str × Option Str)))
   | kind (v : JStr)
+  /-- `none` = not an array; an element = (`GetUint64("timestamp")`, `GetStringBytes("value")`), i.e. (0, "") for
+      anything that is not an object with such members. Skipped by the writer, events for the reader. -/
+  | annotations (a : Option (List (Nat × Str)))
   /-- any other member (skipped) -/
   | other
   deriving Repr, DecidableEq
@@ -304,13 +310,25 @@ inductive ZField where
 def ZField.slot : ZField → Option Nat
   | .traceId _ => some 0 | .id _ => some 1 | .parentId _ => some 2 | .timestamp _ => some 3
   | .duration _ => some 4 | .name _ => some 5 | .localEndpoint _ => some 6 | .remoteEndpoint _ => some 7
-  | .tags _ => some 8 | .kind _ => some 9 | .other => none
+  | .tags _ => some 8 | .kind _ => some 9 | .annotations _ => some 10 | .other => none
 
-/-- a span document: its members in document order and the length of its text -/
+/-- a span text as the libraries present it: the members of the object in document order as the writer's parser
+    (jx) yields them, the length of the text, what follows the object in the text (`tail`; empty in the array
+    framing, where jx hands over exactly the element; the rest of the line in the newline-delimited framing), and
+    the members as the reader's parser (fastjson) yields them for the same text — `none` when it refuses the text. -/
 structure ZSpan where
   fields : List ZField
   rawLen : Nat
+  tail : Bytes := []
+  rfields : Option (List ZField) := some fields
   deriving Repr, DecidableEq
+
+/-- JSON white space (jx `spaceSet`) -/
+def isWs (c : UInt8) : Bool := c == 32 || c == 10 || c == 9 || c == 13
+
+/-- the two parsers read the same members out of the text -/
+def ZSpan.Agree (s : ZSpan) : Prop := s.rfields = some s.fields
+instance (s : ZSpan) : Decidable s.Agree := by unfold ZSpan.Agree; infer_instance
 
 /-- member names are unique (RFC 8259 "SHOULD"; jx keeps the last, fastjson finds the first) -/
 def ZSpan.UniqueKeys (s : ZSpan) : Prop := (s.fields.filterMap ZField.slot).Nodup
@@ -319,14 +337,45 @@ instance (s : ZSpan) : Decidable s.UniqueKeys := by unfold ZSpan.UniqueKeys; inf
 
 /-! ## rows -/
 
+/-- a JSON value as a parser hands it over: object members in document order, duplicates kept; a number by its
+    text and, for `encoding/json`, the float64 it becomes (IEEE bits); strings decoded -/
+inductive JVal where
+  | null
+  | bool (b : Bool)
+  | num (raw : Bytes) (f64 : Nat)
+  | str (s : Str)
+  | arr (vs : List JVal)
+  | obj (ms : List (Str × JVal))
+  deriving Repr, Inhabited
+
+/-- a stored text beginning with `{` under the OTLP payload type (rows of the older JSON writer), as
+    `parseOTLPJson` gets it from its two `json.Unmarshal` calls: the generic document (`map[string]any`: one entry
+    per member name) and what the same text leaves in a `v1.Span` struct — attribute keys with "has a value
+    object", name, kind, events (time, name), status. `none` = `json.Unmarshal` refuses the text. -/
+structure OJsonDoc where
+  raw : Option (List (Str × JVal))
+  sAttrs : List (Str × Bool) := []
+  sName : Str := []
+  sKind : Nat := 0
+  sEvents : List (Nat × Str) := []
+  sStatus : Option (Nat × Str) := none
+  deriving Repr, Inhabited
+
 inductive Payload where
   /-- the span text kept verbatim -/
   | zipkin (doc : ZSpan)
-  /-- `proto.Marshal span` -/
-  | otlp (span : OSpan)
+  /-- `proto.Marshal span`, with the first byte of the marshalled text -/
+  | otlp (lead : UInt8) (span : OSpan)
+  /-- a text beginning with `{` (not produced by this writer under the OTLP type) -/
+  | otlpJson (doc : OJsonDoc)
   /-- a zero-length payload -/
   | empty
   deriving Repr, Inhabited
+
+/-- the first byte of `proto.Marshal` of a span with a non-empty trace id: protobuf-go writes the known fields in
+    field-number order; `trace_id` is field 1 with wire type 2, tag byte `0x0A`. Every accepted span has a 16-byte
+    trace id. (Compared with the stored bytes on every row of the correspondence.) -/
+def pbLead : UInt8 := 10
 
 /-- the arguments of `onSpan` -/
 structure Args where
@@ -451,13 +500,17 @@ def zTime : ZTime → Except Reject Int
 
 def epKey (pfx : String) : Str := ascii pfx ++ ascii "service_name"
 
-/-- `parseEndpoint`: the service name ("" when there is none) and the tag it appends -/
+/-- one `serviceName` member of an endpoint: `d.Str()` fails on anything but a string; the name is appended as a tag
+    and becomes the endpoint's service name -/
+def epStep (pfx : String) (st : Str × List (Str × Str)) : Option Str → Except Reject (Str × List (Str × Str))
+  | none => .error .reject
+  | some s => .ok (s, st.2 ++ [(epKey pfx, s)])
+
+/-- `parseEndpoint`: the service name ("" when there is none; the last one when there are several) and the tags it
+    appends (one per `serviceName` member) -/
 def parseEndpoint (pfx : String) : Option Endpoint → Except Reject (Str × List (Str × Str))
   | none => .error .reject
-  | some e => match e.serviceName with
-    | .absent => .ok ([], [])
-    | .str s => .ok (s, [(epKey pfx, s)])
-    | .bad => .error .reject
+  | some e => e.svcs.foldlM (epStep pfx) ([], [])
 
 /-- `parseTags`: string-valued tags in document order -/
 def parseTags : Option (List (Str × Option Str)) → Except Reject (List (Str × Str))
@@ -487,14 +540,17 @@ def zStep (c : Cfg) (l : ZLoop) : ZField → Except Reject ZLoop
     pure { l with remoteSvc := s, d := { l.d with kv := l.d.kv ++ kv } }
   | .tags t => do let kv ← parseTags t; pure { l with d := { l.d with kv := l.d.kv ++ kv } }
   | .kind _ => pure l
+  | .annotations _ => pure l
   | .other => pure l
 
 /-- `zipkinDecoderV2.decodeSpan`: reset the per-span state, keep the text, walk the members, resolve the
-    service name, call `onSpan`. Returns the decoder state left behind and the `onSpan` arguments.
-    An id member that never occurred leaves `nil` (zero bytes). -/
+    check that nothing follows the object, resolve the service name, call `onSpan`. Returns the decoder state
+    left behind and the `onSpan` arguments. An id member that never occurred leaves `nil` (zero bytes). -/
 def decodeSpan (c : Cfg) (_old : ZDec) (raw : ZSpan) : Except Reject (ZDec × Args) := do
   let fresh : ZDec := { payload := .zipkin raw, payloadLen := raw.rawLen }
   let l ← raw.fields.foldlM (zStep c) { d := fresh }
+  -- `dec.Skip() != io.EOF`: only white space may follow the object (the text is the stored payload)
+  if !raw.tail.all isWs then throw .reject
   let svc := if l.localSvc = [] then l.remoteSvc else l.localSvc
   let d := { l.d with svc := svc, kv := l.d.kv ++ [(kServiceName, svc)] }
   pure (d, ⟨d.traceId.getD [], d.spanId.getD [], d.ts, d.dur, d.parentId, d.name, d.svc, d.payload, d.payloadLen, d.kv⟩)
@@ -530,7 +586,29 @@ def otlpArgs (c : Cfg) (plen : OSpan → Nat) (resAttrs : List KV) (span : OSpan
   let m1 := mapSet m0 kName span.name
   let m2 := mapSet m1 kServiceName svc
   ⟨span.traceId, span.spanId, wrap64 span.startNs, wrap64 ((span.endNs + 18446744073709551616 - span.startNs) % 18446744073709551616),
-   span.parentSpanId, span.name, svc, .otlp stored, plen stored, m2⟩
+   span.parentSpanId, span.name, svc, .otlp pbLead stored, plen stored, m2⟩
+
+/-- the first loop of `otlpGetServiceNames` reads `val.Value.Value` of the last attribute under each name it reaches
+    (it leaves at its first hit when it has a `break`): an attribute without a `Value` faults there — a nil-pointer
+    panic in the parser goroutine, tamed into an error response: the request is refused -/
+def localFault (first : Bool) (attrs : List KV) : List Str → Bool
+  | [] => false
+  | n :: rest =>
+    match lookupLast attrs n with
+    | some .nilp => true
+    | some (.str s) => if s ≠ [] ∧ first = true then false else localFault first attrs rest
+    | _ => localFault first attrs rest
+
+/-- the `remote` loop has no `break`: it reaches all four names -/
+def remoteFault (attrs : List KV) : Bool :=
+  [ascii "service.name", ascii "faas.name", ascii "k8s.deployment.name", ascii "process.executable.name"].any
+    (fun n => match lookupLast attrs n with | some .nilp => true | _ => false)
+
+def otlpFault (c : Cfg) (attrs : List KV) : Bool := localFault c.writerFirst attrs c.writerNames || remoteFault attrs
+
+/-- the body of the innermost loop of `Decode` with its fault -/
+def otlpDec (c : Cfg) (plen : OSpan → Nat) (_ : Unit) (r : List KV × OSpan) : Except Reject (Unit × Args) :=
+  if otlpFault c (r.2.attrs ++ r.1) then .error .reject else .ok ((), otlpArgs c plen r.1 r.2)
 
 /-- all spans of a request with their resource attributes, in the order of the three nested loops -/
 def otlpSpans (td : TracesData) : List (List KV × OSpan) :=
@@ -538,7 +616,7 @@ def otlpSpans (td : TracesData) : List (List KV × OSpan) :=
 
 /-- `UnmarshalOTLPV2` on a decoded `TracesData` -/
 def writeOTLP (c : Cfg) (plen : OSpan → Nat) (td : TracesData) : Outcome :=
-  runSpans c c.otlpType (fun (_ : Unit) (r : List KV × OSpan) => .ok ((), otlpArgs c plen r.1 r.2)) () {} (otlpSpans td)
+  runSpans c c.otlpType (otlpDec c plen) () {} (otlpSpans td)
 
 /-! ## reader -/
 
@@ -555,6 +633,8 @@ structure RSpan where
   attrs : List KV
   status : Nat × Str
   serviceName : Str
+  /-- `Events` (time, name) -/
+  events : List (Nat × Str) := []
   deriving Repr
 
 inductive ReadOne where
@@ -563,7 +643,8 @@ inductive ReadOne where
   | nilSpan
   /-- decode error: `OutputQuery` prints it and ends the stream -/
   | error
-  /-- a run-time panic in the goroutine of `OutputQuery`, which has no recover: the process dies -/
+  /-- a run-time panic in the goroutine of `OutputQuery`; its deferred `recover` prints it and ends the stream
+      (before that fix the process died) -/
   | crash
   deriving Repr
 
@@ -587,31 +668,43 @@ def fLocal : ZField → Option (Option Endpoint) | .localEndpoint v => some v | 
 def fRemote : ZField → Option (Option Endpoint) | .remoteEndpoint v => some v | _ => none
 def fTags : ZField → Option (Option (List (Str × Option Str))) | .tags v => some v | _ => none
 def fKind : ZField → Option JStr | .kind v => some v | _ => none
+def fAnnotations : ZField → Option (Option (List (Nat × Str))) | .annotations v => some v | _ => none
 
 def kindOf (k : Str) : Nat :=
   if k = ascii "CLIENT" then 3 else if k = ascii "SERVER" then 2
   else if k = ascii "PRODUCER" then 4 else if k = ascii "CONSUMER" then 5 else 0
 
-/-- the attributes `parseZipkinJSON` makes of one endpoint, and its service name if it is a string -/
+/-- the attributes `parseZipkinJSON` makes of one endpoint, and its service name if it is a string
+    (`ep.Get("serviceName")`: the first such member) -/
 def epAttrs (name : String) (e : Option Endpoint) : List KV × Option Str :=
   match e with
   | none => ([], none)
   | some e =>
-    let sn := match e.serviceName with | .str s => some s | _ => none
+    let sn := match e.svcs.head? with | some (some s) => some s | _ => none
     let a1 := match sn with | some s => [(ascii name ++ ascii ".serviceName", AnyValue.str s)] | none => []
     let a2 := match e.ipv4 with | some s => [(ascii name ++ ascii ".ipv4", AnyValue.str s)] | none => []
     let a3 := match e.ipv6 with | some s => [(ascii name ++ ascii ".ipv6", AnyValue.str s)] | none => []
     let a4 := if e.port ≠ 0 then [(ascii name ++ ascii ".port", AnyValue.int e.port)] else []
     (a1 ++ a2 ++ a3 ++ a4, sn)
 
-/-- `parseZipkinJSON` on a stored row (ids and times from the row, the rest from the payload; fastjson
-    looks members up by name and takes the first) -/
+/-- the events `parseZipkinJSON` makes of the annotations: `GetUint64("timestamp") * 1000` in uint64, skipped when 0 -/
+def annoEvents (a : Option (List (Nat × Str))) : List (Nat × Str) :=
+  match a with
+  | none => []
+  | some as => as.filterMap (fun x =>
+      let ts := (x.1 * 1000) % 18446744073709551616
+      if ts = 0 then none else some (ts, x.2))
+
+/-- `parseZipkinJSON` on a stored row (ids and times from the row, the rest from the payload as fastjson parses it;
+    fastjson looks members up by name and takes the first) -/
 def parseZipkinJSON (row : TraceRow) : ReadOne :=
   match row.payload with
   | .zipkin doc =>
+    match doc.rfields with
+    | none => .error
+    | some fs =>
     if row.traceId.length < 16 ∨ row.spanId.length < 8 then .crash
     else
-      let fs := doc.fields
       let name := ((zFind fs fName).getD none).getD []
       let kind := kindOf (((zFind fs fKind).getD none).getD [])
       let parent := match (zFind fs fParentId).getD none with
@@ -626,28 +719,225 @@ def parseZipkinJSON (row : TraceRow) : ReadOne :=
         | some s => if s = [] then (rs.getD []) else s
         | none => rs.getD []
       .span ⟨row.traceId.take 16, row.spanId.take 8, parent, name, kind, toU64 row.ts, toU64 (wrap64 (row.ts + row.dur)),
-             tags ++ la ++ ra ++ [(kServiceName, .str svc)], (0, []), svc⟩
+             tags ++ la ++ ra ++ [(kServiceName, .str svc)], (0, []), svc,
+             annoEvents ((zFind fs fAnnotations).getD none)⟩
   | _ => .error
 
 /-- the reader's `firstLevelMap`: one attribute per key, the last one; canonical order = first insertion -/
 abbrev firstLevel (attrs : List KV) : List KV := assocOfWrites attrs
 
-/-- `parseOTLP` (protobuf payload) -/
-def parseOTLP (c : Cfg) (row : TraceRow) : ReadOne :=
-  match row.payload with
-  | .empty => .error
-  | .otlp span =>
+/-! ### `parseOTLPJson` (reader/service/parseOTLPJson.go): rows of the older JSON writer -/
+
+/-- `rawSpan[key]` of a Go map filled by `encoding/json`: the last member of that name; JSON `null` is a nil `any` -/
+def jGet (ms : List (Str × JVal)) (key : Str) : Option JVal :=
+  match ((ms.reverse.find? (fun e => e.1 == key)).map (·.2) : Option JVal) with
+  | some JVal.null => none
+  | x => x
+
+/-- `strconv.ParseInt(s, 10, 64)` with the error dropped: 0 on a syntax error, the nearest bound on a range error -/
+def parseIntClamp (s : Bytes) : Int :=
+  let (neg, ds) := match s with
+    | 43 :: r => (false, r)
+    | 45 :: r => (true, r)
+    | r => (false, r)
+  match digitsVal ds with
+  | none => 0
+  | some n =>
+    let v : Int := if neg then -(n : Int) else n
+    if v < int64Min then int64Min else if v > int64Max then int64Max else v
+
+/-- `setInt64`: a string is parsed, anything else (a JSON number too) gives 0 -/
+def setInt64 (v : Option JVal) : Int :=
+  match v with
+  | some (.str s) => if s = [] then 0 else parseIntClamp s
+  | _ => 0
+
+/-- `base64DEcode` of `setOTLPIds`: absent → nil; not a string → error; else `StdEncoding.DecodeString` -/
+def jId (v : Option JVal) : Except Reject Bytes :=
+  match v with
+  | none => .ok []
+  | some (.str s) => match B64.decodeOk s with | some b => .ok b | none => .error .reject
+  | some _ => .error .reject
+
+/-- the outcome of a step of `parseOTLPJson`: a value, a returned error, or a run-time panic (unchecked type assertion) -/
+inductive JRes (α : Type) where
+  | ok (a : α)
+  | err
+  | panic
+  deriving Repr
+
+def JRes.bind {α β} (x : JRes α) (f : α → JRes β) : JRes β :=
+  match x with | .ok a => f a | .err => .err | .panic => .panic
+instance : Monad JRes where
+  pure := JRes.ok
+  bind := JRes.bind
+
+/-- `attr.(map[string]any)` -/
+def asObj : JVal → JRes (List (Str × JVal))
+  | .obj ms => .ok ms
+  | _ => .panic
+
+/-- `getRawAttr`: the first element whose `"key"` is the string `key`; every element passed on the way must be an object -/
+def getRawAttr : List JVal → Str → JRes (Option (List (Str × JVal)))
+  | [], _ => .ok none
+  | a :: rest, key => do
+    let ms ← asObj a
+    match jGet ms (ascii "key") with
+    | some (.str k) => if k = key then pure (some ms) else getRawAttr rest key
+    | _ => getRawAttr rest key
+
+/-- `getRawVal`: `attr["value"].(map[string]any)` -/
+def getRawVal (attrs : List JVal) (key : Str) : JRes (Option (List (Str × JVal))) := do
+  match ← getRawAttr attrs key with
+  | none => pure none
+  | some ms => match jGet ms (ascii "value") with
+    | some (.obj v) => pure (some v)
+    | _ => .panic
+
+/-- one name of a loop of the JSON `otlpGetServiceNames`: `val["stringValue"]` present (a JSON `null` counts as
+    present and then fails the `.(string)` assertion) -/
+def jsonNameStep (attrs : List JVal) (cur : Str) (name : Str) : JRes Str := do
+  match ← getRawVal attrs name with
+  | none => pure cur
+  | some v => match ((v.reverse.find? (fun e => e.1 == ascii "stringValue")).map (·.2) : Option JVal) with
+    | none => pure cur
+    | some (JVal.str s) => pure s
+    | some _ => .panic
+
+/-- the JSON `otlpGetServiceNames`: no `break` — the LAST name of each list that is present wins, empty strings count -/
+def jsonServiceNames (attrs : List JVal) : JRes (Str × Str) := do
+  let l ← [ascii "peer.service", ascii "service.name", ascii "faas.name", ascii "k8s.deployment.name",
+           ascii "process.executable.name"].foldlM (jsonNameStep attrs) []
+  let r ← [ascii "service.name", ascii "faas.name", ascii "k8s.deployment.name",
+           ascii "process.executable.name"].foldlM (jsonNameStep attrs) []
+  pure (if l = [] then ascii "OTLPResourceNoServiceName" else l, r)
+
+/-- `toInt64` of a decoded JSON value: a string is parsed (0 on a syntax error, clamped), a number gives 0
+    (`encoding/json` yields float64, never int64) -/
+def jToInt64 : JVal → Int
+  | .str s => parseIntClamp s
+  | _ => 0
+
+/-- `setRawValue`: four independent `if`s, a later kind overrides an earlier one. `fbits s` = the float64
+    `strconv.ParseFloat(s, 64)` yields, 0 on error (a parameter: the library call). -/
+def setRawValue (fbits : Bytes → Nat) (rv : List (Str × JVal)) (cur : AnyValue) : JRes AnyValue := do
+  let g := jGet rv
+  let v1 ← match g (ascii "stringValue") with
+    | none => pure cur
+    | some (.str s) => pure (AnyValue.str s)
+    | some _ => JRes.panic
+  let v2 := match g (ascii "intValue") with
+    | none => v1
+    | some x => AnyValue.int (jToInt64 x)
+  let v3 ← match g (ascii "boolValue") with
+    | none => pure v2
+    | some (.bool b) => pure (AnyValue.bool b)
+    | some _ => JRes.panic
+  let v4 := match g (ascii "doubleValue") with
+    | none => v3
+    | some (.num _ f) => AnyValue.dbl f
+    | some (.str s) => AnyValue.dbl (fbits s)
+    | some _ => AnyValue.dbl 0
+  pure v4
+
+/-- set the value of the FIRST attribute stored under `key` (`getAttr` + assignment through the pointer) -/
+def setFirst (key : Str) (f : AnyValue → JRes AnyValue) : List KV → JRes (Option (List KV))
+  | [] => .ok none
+  | kv :: rest =>
+    if kv.1 == key then do let v ← f kv.2; pure (some ((key, v) :: rest))
+    else do
+      match ← setFirst key f rest with
+      | none => pure none
+      | some r => pure (some (kv :: r))
+
+/-- the last loop of `parseOTLPJson` over the raw attributes -/
+def jsonAttrLoop (fbits : Bytes → Nat) : List JVal → List KV → JRes (List KV)
+  | [], acc => .ok acc
+  | a :: rest, acc =>
+    match a with
+    | .obj ms =>
+      match jGet ms (ascii "key") with
+      | some (.str k) =>
+        if k = kServiceName ∨ k = kRemoteServiceName then jsonAttrLoop fbits rest acc
+        else do
+          let rv := match jGet ms (ascii "value") with | some (.obj v) => JRes.ok v | _ => JRes.panic
+          -- `getAttr` first; the assertion on `_a["value"]` is evaluated only when the attribute exists
+          if acc.any (fun kv => kv.1 == k) then do
+            let v ← rv
+            match ← setFirst k (setRawValue fbits v) acc with
+            | some acc' => jsonAttrLoop fbits rest acc'
+            | none => jsonAttrLoop fbits rest acc
+          else jsonAttrLoop fbits rest acc
+      | _ => .panic   -- `_a["key"].(string)`
+    | _ => jsonAttrLoop fbits rest acc
+
+/-- the event loop of `setTimestamps`: `span.Events[i].TimeUnixNano = …` for every element of the raw `events` that is
+    an object (an index past the struct's events faults) -/
+def jsonEvents : List JVal → List (Nat × Str) → JRes (List (Nat × Str))
+  | [], se => .ok se
+  | e :: es, se =>
+    match e, se with
+    | .obj _, [] => .panic
+    | .obj em, (_, n) :: rest => do
+      let r ← jsonEvents es rest
+      pure ((toU64 (setInt64 (jGet em (ascii "timeUnixNano"))), n) :: r)
+    | _, [] => jsonEvents es []
+    | _, x :: rest => do let r ← jsonEvents es rest; pure (x :: r)
+
+/-- `parseOTLPJson`. The span's attributes start as `encoding/json` left them in the struct: one per element of
+    `attributes`, the value an empty `AnyValue` (`unset`) when the element has a `value` object; an element without
+    one has a nil `Value` (`nilp`) and faults when it is assigned through. -/
+def parseOTLPJson (fbits : Bytes → Nat) (d : OJsonDoc) : JRes OSpan :=
+  match d.raw with
+  | none => .err
+  | some ms => do
+    let tid ← match jId (jGet ms (ascii "traceId")) with | .ok b => JRes.ok b | .error _ => JRes.err
+    let sid ← match jId (jGet ms (ascii "spanId")) with | .ok b => JRes.ok b | .error _ => JRes.err
+    let pid ← match jId (jGet ms (ascii "parentSpanId")) with | .ok b => JRes.ok b | .error _ => JRes.err
+    let st := toU64 (setInt64 (jGet ms (ascii "startTimeUnixNano")))
+    let en := toU64 (setInt64 (jGet ms (ascii "endTimeUnixNano")))
+    let rawEvents := match jGet ms (ascii "events") with | some (.arr es) => es | _ => []
+    let events ← jsonEvents rawEvents d.sEvents
+    let attributes := match jGet ms (ascii "attributes") with | some (.arr as) => as | _ => []
+    let (localN, remoteN) ← jsonServiceNames attributes
+    let attrs0 : List KV := d.sAttrs.map (fun a => (a.1, if a.2 then AnyValue.unset else AnyValue.nilp))
+    -- service.name / remoteService.name: first attribute of that key, value assigned through `attr.Value`
+    let hasVal (k : Str) : Bool := match d.sAttrs.find? (fun a => a.1 == k) with | some a => a.2 | none => true
+    if !hasVal kServiceName then JRes.panic else
+    let attrs1 := if attrs0.any (fun kv => kv.1 == kServiceName) then replaceFirst kServiceName (.str localN) attrs0
+                  else attrs0 ++ [(kServiceName, .str localN)]
+    if !hasVal kRemoteServiceName then JRes.panic else
+    let attrs2 := if attrs1.any (fun kv => kv.1 == kRemoteServiceName) then replaceFirst kRemoteServiceName (.str remoteN) attrs1
+                  else attrs1 ++ [(kRemoteServiceName, .str remoteN)]
+    let attrs3 ← jsonAttrLoop fbits attributes attrs2
+    pure { traceId := tid, spanId := sid, parentSpanId := pid, name := d.sName, kind := d.sKind, startNs := st, endNs := en,
+           attrs := attrs3, status := d.sStatus, events := events }
+
+/-- `parseOTLP`: an empty payload is an error; a payload beginning with `{` goes to `parseOTLPJson`, anything else to
+    `proto.Unmarshal`; then the first-level map, the service name, `service.name` set, status defaulted -/
+def parseOTLP (c : Cfg) (fbits : Bytes → Nat) (row : TraceRow) : ReadOne :=
+  let fin (span : OSpan) : ReadOne :=
     let m := firstLevel span.attrs
     let svc := resolveService c.readerNames c.readerFirst c.readerDefault m
     let m' := assocSet m kServiceName (AnyValue.str svc)
     .span ⟨span.traceId, span.spanId, span.parentSpanId, span.name, span.kind, span.startNs, span.endNs, m',
-           span.status.getD (0, []), svc⟩
+           span.status.getD (0, []), svc, span.events⟩
+  match row.payload with
+  | .empty => .error
+  | .otlp lead span =>
+    -- protobuf bytes beginning with `{` (0x7B: field 15 with wire type 3) would be handed to `json.Unmarshal`, which fails
+    if lead = 123 then .error else fin span
+  | .otlpJson d =>
+    match parseOTLPJson fbits d with
+    | .ok span => fin span
+    | .err => .error
+    | .panic => .crash
   | .zipkin _ => .error
 
 /-- the switch of `OutputQuery` -/
-def readRow (c : Cfg) (row : TraceRow) : ReadOne :=
+def readRow (c : Cfg) (fbits : Bytes → Nat) (row : TraceRow) : ReadOne :=
   if row.ptype = c.readZipkinType then parseZipkinJSON row
-  else if row.ptype = c.readOtlpType then parseOTLP c row
+  else if row.ptype = c.readOtlpType then parseOTLP c fbits row
   else .nilSpan
 
 inductive ReadEnd where
@@ -657,12 +947,12 @@ inductive ReadEnd where
   deriving DecidableEq, Repr
 
 /-- `OutputQuery` over the rows of a trace: responses sent until the first error -/
-def readRows (c : Cfg) : List TraceRow → List (Option RSpan) × ReadEnd
+def readRows (c : Cfg) (fbits : Bytes → Nat) : List TraceRow → List (Option RSpan) × ReadEnd
   | [] => ([], .done)
   | r :: rs =>
-    match readRow c r with
-    | .span s => let (o, e) := readRows c rs; (some s :: o, e)
-    | .nilSpan => let (o, e) := readRows c rs; (none :: o, e)
+    match readRow c fbits r with
+    | .span s => let (o, e) := readRows c fbits rs; (some s :: o, e)
+    | .nilSpan => let (o, e) := readRows c fbits rs; (none :: o, e)
     | .error => ([], .stopped)
     | .crash => ([], .crashed)
 
